@@ -153,6 +153,18 @@ def enum_strings(col, lang, alphabet, max_len, firsts, tag):
     col.label(f"{tag}:{lang}")
 
 
+def templates(col, lang):
+    """Every comment kind of the language (see c16_templates.py), with LF, CRLF and without the final newline."""
+    from vf.props.c16_templates import TEMPLATES
+
+    for t in TEMPLATES.get(lang, []):
+        for variant in (t, t.replace("\n", "\r\n"), t.rstrip("\n")):
+            col.eval({"lang": lang, "text": variant}, nontrivial=_nontrivial(lang, variant), labels=["template:comment-kinds"])
+
+
+SOUP_EXTRA = ["#if 0\n", "#endif\n", "<!--", "-->", "\ufeff"]
+
+
 def corpus_files(lang):
     d = HOME / "corpus" / lang
     return sorted(p for p in d.iterdir() if p.is_file()) if d.exists() else []
@@ -190,7 +202,7 @@ def gen_texts(col, seed, n, lang):
                 text = text.replace("\n", "\r\n")
             return text, "canonical"
         if kind == "soup" or not corp:
-            return "".join(draw(st.lists(alpha, max_size=40))), "soup"
+            return "".join(draw(st.lists(st.one_of(alpha, alpha, alpha, st.sampled_from(SOUP_EXTRA)), max_size=40))), "soup"
         if kind == "unicode":
             return draw(st.text(max_size=30)), "unicode"
         src = draw(st.sampled_from(corp))
@@ -218,5 +230,6 @@ def plan(tier, seed):
             jobs.append(("enum_strings", {"lang": lang, "alphabet": ALPHA, "max_len": L, "firsts": g, "tag": "enum"}))
         jobs.append(("enum_strings", {"lang": lang, "alphabet": SEPS, "max_len": 3 if quick else 4, "firsts": SEPS, "tag": "separators"}))
         jobs.append(("corpus_whole", {"lang": lang}))
+        jobs.append(("templates", {"lang": lang}))
         jobs.append(("gen_texts", {"seed": shard_seed(seed, ID, lang), "n": 300 if quick else 6000, "lang": lang}))
     return jobs
